@@ -47,6 +47,21 @@ theorem C13_model_key_wrap (kek kd : Bytes) (p : MParam) (hAES : BlockInv (aesEn
   · simp only [unwrapSym, CKM.AES_KEY_WRAP, beq_self_eq_true, if_true]
     rw [rfc3394_roundtrip hAES _ (C13_zeroPad8 kd).1 hl]
 
+/-- **CKM_AES_KEY_WRAP_PAD** (RFC 5649): unwrapping what wrapping produced yields exactly the key bytes — every non-empty key shorter than 2^32 bytes, whatever its
+    length modulo eight (the alternative initial value with the length field, the one-block special case and the zero-padding check included) -/
+theorem C13_aes_key_wrap_pad_roundtrip {E D : Bytes → Bytes} (h : BlockInv E D) (kd : Bytes) (h0 : 0 < kd.length) (h32 : kd.length < 2 ^ 32) :
+    rfc5649Unwrap D (rfc5649Wrap E kd) = some kd := rfc5649_roundtrip h kd h0 h32
+
+theorem C13_model_key_wrap_pad (kek kd : Bytes) (p : MParam) (hAES : BlockInv (aesEncBlock (aesKey kek)) (aesDecBlock (aesKey kek)))
+    (h0 : 0 < kd.length) (h32 : kd.length < 2 ^ 32) :
+    ∃ w, wrapSym CKM.AES_KEY_WRAP_PAD p kek kd = .ok w ∧ unwrapSym CKM.AES_KEY_WRAP_PAD p kek w = .ok kd := by
+  refine ⟨rfc5649Wrap (aesEncBlock (aesKey kek)) kd, ?_, ?_⟩
+  · simp only [wrapSym, CKM.AES_KEY_WRAP, CKM.AES_KEY_WRAP_PAD, show ((0x210A : Nat) == 0x2109) = false from by decide, beq_self_eq_true,
+      Bool.false_eq_true, if_false, if_true]
+  · simp only [unwrapSym, CKM.AES_KEY_WRAP, CKM.AES_KEY_WRAP_PAD, show ((0x210A : Nat) == 0x2109) = false from by decide, beq_self_eq_true,
+      Bool.false_eq_true, if_false, if_true]
+    rw [rfc5649_roundtrip hAES kd h0 h32]
+
 theorem C13_model_cbc_pad (kek kd iv : Bytes) (p : MParam) (hAES : BlockInv (aesEncBlock (aesKey kek)) (aesDecBlock (aesKey kek)))
     (hp : (p.raw.headD []).take 16 = iv) (hiv : iv.length = 16) :
     ∃ w, wrapSym CKM.AES_CBC_PAD p kek kd = .ok w ∧ unwrapSym CKM.AES_CBC_PAD p kek w = .ok kd := by
